@@ -129,9 +129,12 @@ TEXT = {
     "C02": {
         "level": "Theorems (Props/C02.lean) for all tokens, blocks and authorizer states: attenuation_monotone, attenuation_monotone_suffix, "
                  "refusal_is_stable, failed_checks_prefix, run_error_is_stable, authorityPhase_indep_blocks, on the model of Authorize that follows the "
-                 "code's evaluation order. Tied to the code by AUTHSEQ cases on pairs (T, T+B) with adversarial B, through builders, Serialize, "
-                 "Unmarshal and AuthorizerFor; witness search evaluates the statement on the implementation.",
-        "note": COMMON_NOTE + "Modelled, not verified: interning (string-level model), wall-clock limit.",
+                 "code's evaluation order. Props/C02Wire.lean (finding D21), index level: resolveBlockL_stable / resolveTokenL_append (a block whose symbols are declared by itself or "
+                 "earlier blocks resolves identically whatever later blocks declare), wire_attenuation_monotone (C02 for tokens as they are on the wire, through the library's "
+                 "whole-table resolution), unmarshal_ok_declared (the gate Unmarshal now applies), undeclared_symbol_widens_without_gate (proved witness of the repaired defect). "
+                 "Tied to the code by AUTHSEQ cases on pairs (T, T+B) with adversarial B, through builders, Serialize, "
+                 "Unmarshal and AuthorizerFor; byte-level pairs whose authority block refers to an undeclared symbol; witness search evaluates the statement on the implementation.",
+        "note": COMMON_NOTE + "Modelled, not verified: wall-clock limit. The wire theorems assume variable names declared too; the library's gate leaves variable names unchecked (names only, injective: verdict-neutral by C12Rename, not composed formally).",
         "technique": "Lean 4 proof (prefix/accumulation induction over the block loop) + differential correspondence + relational witness search",
     },
     "C03": {
